@@ -23,8 +23,11 @@ def _hash(lo, hi):
     return {"kind": "mc", "name": "MC_Hash", "workers": 4, "env": {"MATH_LO": str(lo), "MATH_HI": str(hi)}}
 
 
-def _gen(name):
-    return {"kind": "gen", "name": name}
+def _gen(name, only=None):
+    d = {"kind": "gen", "name": name}
+    if only:
+        d["only"] = only     # run only the generated scripts whose file name starts with this
+    return d
 
 
 def _wl(name):
@@ -33,12 +36,12 @@ def _wl(name):
 
 PROPS = {
     "C01": {"level": MC, "steps": [_math(33, 54, 8), {"kind": "mc", "name": "MC_Group", "workers": 4},
-                                   _gen("Gen_C01"), _wl("c01")]},
+                                   _gen("Gen_C01"), _gen("Gen_Rep", "rep-prog"), _wl("c01")]},
     "C02": {"level": MC, "steps": [{"kind": "mc", "name": "MC_Wnaf", "workers": 4},
                                    {"kind": "mc", "name": "MC_WnafForm", "workers": 4}, _gen("Gen_C02"), _wl("c02")]},
     "C03": {"level": MC, "steps": [_math(57, 59, 3), _wl("c03")]},
     "C04": {"level": MC, "steps": [{"kind": "mc", "name": "MC_Decode", "workers": 2}, _gen("Gen_Enc"), _wl("c04")]},
-    "C05": {"level": MC, "steps": [_gen("Gen_Enc"), _wl("c05")]},
+    "C05": {"level": MC, "steps": [_gen("Gen_Enc"), _gen("Gen_Rep", "rep-enc"), _wl("c05")]},
     "C06": {"level": MC, "steps": [_iso(9, 16), _hash(1, 9), _wl("c06")]},
     "C07": {"level": MC, "steps": [_math(55, 56, 2), _gen("Gen_Enc"), _gen("Gen_Map"), _wl("c07")]},
     "C08": {"level": MC, "steps": [{"kind": "selfmath", "name": "SelfMath"}, _gen("Gen_C08"), _wl("c08")]},
@@ -52,10 +55,10 @@ PROPS = {
     "C11": {"level": MC, "steps": [_math(59, 59, 1), {"kind": "mc", "name": "MC_PairingProduct", "workers": 4}, _wl("c11")]},
     "C12": {"level": MC, "steps": [_math(59, 60, 2), _wl("c12")]},
     "C13": {"level": MC, "steps": [_hash(1, 6), _wl("c13")]},
-    "C14": {"level": MC, "steps": [_iso(9, 16), _gen("Gen_Map"), _gen("Gen_MapSub"), _wl("c14")]},
-    "C15": {"level": MC, "steps": [_iso(9, 16), _gen("Gen_Map"), _gen("Gen_MapDiag"), _gen("Gen_MapY"), _wl("c15")]},
-    "C16": {"level": MC, "steps": [_iso(), _gen("Gen_Iso"), _wl("c16")]},
-    "C17": {"level": MC, "steps": [_math(55, 56, 2), _gen("Gen_Enc"), _wl("c17")]},
+    "C14": {"level": MC, "steps": [_iso(9, 16), _gen("Gen_Map"), _gen("Gen_MapSub"), _gen("Gen_MapY"), _wl("c14")]},
+    "C15": {"level": MC, "steps": [_iso(9, 16), _gen("Gen_Map"), _gen("Gen_MapDiag"), _gen("Gen_MapY"), _gen("Gen_MapN"), _wl("c15")]},
+    "C16": {"level": MC, "steps": [_iso(), _gen("Gen_Iso"), _gen("Gen_IsoPrefix"), _gen("Gen_Rep", "rep-iso"), _wl("c16")]},
+    "C17": {"level": MC, "steps": [_math(55, 56, 2), _gen("Gen_Enc"), _gen("Gen_Rep", "rep-clearh"), _wl("c17")]},
     "C18": {"level": MC, "steps": [_math(1, 8, 8),
                                    {"kind": "mc", "name": "MC_Sqrt", "workers": 4,
                                     "cfg": {"quick": "MC_Sqrt.cfg", "thorough": "MC_Sqrt_thorough.cfg"}},
